@@ -194,19 +194,21 @@ func (cs *clientState) unblock(reason string, isError bool) {
 	us := time.Microsecond
 
 	for {
-		// N.B., checking is allowed in the midst of capture and release
-		locked := atomic.SwapInt32(&cs.blocked, CS_CHECKING)
-		if locked == CS_CAPTURED {
+		// N.B., checking is allowed in the midst of capture and release. Only the goroutine that
+		// moved the state from CS_CAPTURED to CS_CHECKING moves it back: two checkers at once
+		// must not overwrite each other's restored state.
+		if atomic.CompareAndSwapInt32(&cs.blocked, CS_CAPTURED, CS_CHECKING) {
 			// client is probably in select waiting for the unblock
 			if atomic.CompareAndSwapInt32(&cs.unblockPending, 0, 1) {
 				// only one unblock is posted per capture to prevent
 				// getting stuck here
 				cs.unblockCh <- unblockReason{reason: reason, isError: isError}
 			}
+			atomic.StoreInt32(&cs.blocked, CS_CAPTURED)
+			return
 		}
-		atomic.SwapInt32(&cs.blocked, locked)
 
-		if locked == CS_UNCAPTURED || locked == CS_CAPTURED {
+		if atomic.LoadInt32(&cs.blocked) == CS_UNCAPTURED {
 			return
 		}
 
@@ -224,20 +226,16 @@ func (cs *clientState) isBlocked() bool {
 	us := time.Microsecond
 
 	for {
-		blocked := false
-
-		// N.B., checking is allowed in the midst of capture and release
-		locked := atomic.SwapInt32(&cs.blocked, CS_CHECKING)
-		if locked == CS_CAPTURED {
-			blocked = true
-		}
-		atomic.SwapInt32(&cs.blocked, locked)
-
-		if locked == CS_UNCAPTURED || locked == CS_CAPTURED {
-			return blocked
+		// N.B., checking is allowed in the midst of capture and release; CS_CHECKING is a
+		// transient state of a captured client (another goroutine is looking at it)
+		switch atomic.LoadInt32(&cs.blocked) {
+		case CS_CAPTURED, CS_CHECKING:
+			return true
+		case CS_UNCAPTURED:
+			return false
 		}
 
-		// CS_DRAINING, or CS_CHECKING from another goroutine, try again
+		// CS_DRAINING: the capture is being released, try again
 		if us < 4000*time.Microsecond {
 			us *= 2
 		} else {
